@@ -117,6 +117,44 @@ theorem parity_straddle_cycle (y : β) (poly : List (β × β)) :
   | nil => rfl
   | cons v0 t => simp [edges, parity_straddle_from, lastFrom_append]
 
+theorem zipWith_replicate_false {γ : Type} (f : γ → Bool → Bool) (pts : List γ) :
+    List.zipWith f pts (List.replicate pts.length false) = pts.map fun pt => f pt false := by
+  induction pts with
+  | nil => rfl
+  | cons a t ih => simp [List.replicate_succ, ih]
+
+/-- the vector interface is the per-point model applied to each point, whatever a caller-supplied answer
+vector (of the right length) contained -/
+theorem pointsInsidePolygon_cons (atol : β) (pts : List (β × β)) (v0 : β × β) (t : List (β × β))
+    (insideLen : Option Nat) (hlen : ∀ n, insideLen = some n → n = pts.length) :
+    pointsInsidePolygon atol pts (v0 :: t) insideLen = .ok (pts.map (pointInside atol (v0 :: t))) := by
+  cases insideLen with
+  | none =>
+    simp only [pointsInsidePolygon, Bool.false_eq_true, if_false, cInside, zipWith_replicate_false]
+    rfl
+  | some n =>
+    simp only [pointsInsidePolygon, hlen n rfl, bne_self_eq_false, Bool.false_eq_true, if_false, cInside,
+      zipWith_replicate_false]
+    rfl
+
+theorem filter_zip_map {γ : Type} (g : γ → Bool) (l : List γ) :
+    ((l.zip (l.map g)).filter (·.2)).map (·.1) = l.filter g := by
+  induction l with
+  | nil => rfl
+  | cons a t ih =>
+    simp only [List.map_cons, List.zip_cons_cons, List.filter_cons]
+    cases g a <;> simp [ih]
+
+theorem cellsInside_cons [NatCast β] (nrows ncols : Nat) (xll yll csz atol : β) (v0 : β × β) (t : List (β × β)) :
+    cellsInside nrows ncols xll yll csz atol (v0 :: t) =
+      .ok ((List.range (nrows * ncols)).filter fun i =>
+        pointInside atol (v0 :: t) (cellCentre nrows ncols xll yll csz i)) := by
+  simp only [cellsInside]
+  rw [pointsInsidePolygon_cons atol _ v0 t none (by intro n h; cases h)]
+  simp only [List.map_map]
+  rw [filter_zip_map]
+  rfl
+
 end loop
 
 /-! ### one edge, ordered field -/
